@@ -137,29 +137,88 @@ pub struct C14Model {
 #[derive(Clone)]
 struct ObsBox(Obs);
 
-/// Lets the repository catch up without touching the task queue: does what
-/// the SyncRepo task of every CA and the RrdpUpdateIfNeeded task do
-/// (scheduler::sync_repo / update_rrdp_if_needed), in that order.
+/// Runs the due repository tasks (SyncRepo of a CA, RrdpUpdateIfNeeded) through
+/// the real scheduler step and nothing else: other due tasks are parked in
+/// the far future while this runs and put back at their original time
+/// afterwards (public queue API only: pop / reschedule / schedule-soonest).
 fn pump_repo_only(w: &mut World, out: &mut OpOutcome) {
-    let cm = w.krill.ca_manager();
-    let mut handles: Vec<String> = cm
-        .ca_handles()
-        .unwrap_or_default()
-        .iter()
-        .map(|h| h.to_string())
-        .collect();
-    handles.sort();
-    handles.push("ta".into());
-    for h in handles {
-        let handle = crate::world::ca(&h);
-        match cm.cas_repo_sync_single(&handle, 0, &w.slow) {
-            Ok(_) => out.tasks.push(format!("sync_repo_{h}:direct")),
-            Err(e) => out.tasks.push(format!("sync_repo_{h}:error {e}")),
+    use krill::server::mq::{Priority, Task};
+    use krill::server::scheduler::VerifStepOutcome as O;
+    let is_repo = |name: &str| name.starts_with("sync_repo_") || name == "update_rrdp_if_needed";
+    let far = Priority::from_timestamp_ms(((clock::now_epoch() + 20 * 365 * 86400) as u128) * 1000);
+    let mut parked: Vec<(Task, u128)> = Vec::new();
+    // park every due non-repository task
+    for _ in 0..200 {
+        let now = clock::now_millis();
+        let due_other: Vec<(u128, String)> = w
+            .pending_tasks()
+            .into_iter()
+            .filter(|(ts, n)| (*ts as i128) <= now && !is_repo(n))
+            .collect();
+        if due_other.is_empty() {
+            break;
+        }
+        // pop hands out the earliest due task; park it if it is not a repo
+        // task, otherwise put it straight back
+        let Some((key, value)) = w.krill.tasks().pop() else { break };
+        let name = key.as_str().split_once('-').map(|x| x.1).unwrap_or("").to_string();
+        let orig_ts = due_other
+            .iter()
+            .find(|(_, n)| *n == name)
+            .map(|(ts, _)| *ts)
+            .unwrap_or(now as u128);
+        if is_repo(&name) {
+            // give it a slightly later time so the others come first
+            let _ = w.krill.tasks().reschedule(&key, Priority::from_timestamp_ms(now as u128));
+            // all remaining due_other are earlier or equal; continue
+            // (termination: each iteration parks one or the loop bound hits)
+            if let Ok(task) = serde_json::from_value::<Task>(value) {
+                let _ = task;
+            }
+            // make sure we do not spin on the same repo task
+            if due_other.iter().all(|(ts, _)| (*ts as i128) >= now) {
+                break;
+            }
+            continue;
+        }
+        match serde_json::from_value::<Task>(value) {
+            Ok(task) => {
+                let _ = w.krill.tasks().reschedule(&key, far);
+                parked.push((task, orig_ts));
+            }
+            Err(_) => {
+                let _ = w.krill.tasks().reschedule(&key, far);
+            }
         }
     }
-    match w.krill.repo_manager().update_rrdp_if_needed() {
-        Ok(_) => out.tasks.push("update_rrdp_if_needed:direct".into()),
-        Err(e) => out.fatal = Some(format!("update_rrdp_if_needed failed: {e}")),
+    // now only repository tasks are due: run them with the real step
+    for _ in 0..100 {
+        let now = clock::now_millis();
+        let due: Vec<String> = w
+            .pending_tasks()
+            .into_iter()
+            .filter(|(ts, _)| (*ts as i128) <= now)
+            .map(|(_, n)| n)
+            .collect();
+        if due.is_empty() {
+            break;
+        }
+        if !due.iter().all(|n| is_repo(n)) {
+            out.tasks.push(format!("(could not isolate repository tasks: due {due:?})"));
+            break;
+        }
+        match w.step() {
+            O::Processed { task_key, result, .. } => out.tasks.push(format!("{task_key}:{result}")),
+            O::Idle => break,
+            O::Fatal(f) => {
+                out.fatal = Some(f);
+                break;
+            }
+        }
+    }
+    // put the parked tasks back at their original time (soonest wins)
+    for (task, ts) in parked {
+        let _ = w.krill.tasks().schedule(task, Priority::from_timestamp_ms(ts));
     }
 }
 
@@ -266,6 +325,11 @@ impl Model for C14Model {
         };
         let pre = self.last.as_ref().map(|b| b.0.clone()).unwrap_or_default();
         let now = clock::now_epoch();
+        if std::env::var("VERIF_DEBUG").is_ok() {
+            for s in post.sets.values() {
+                eprintln!("   [c14] {} nr {} next in {} s", c01::short_uri(&s.repo_dir), s.mft_number, s.next_update - now);
+            }
+        }
         let mut v = Vec::new();
         // numbers of every key set, in every state
         for (ski, s) in &post.sets {
@@ -444,12 +508,35 @@ pub fn run(tier: &Tier, args: &[String]) -> i32 {
             model: mk(24, 8, 52, 4),
         },
         Config {
-            name: "next2-margin1-roa2w1".into(),
-            build: Box::new(|| c01::build_w3(cfg(2, 1, 2, 1))),
-            model: mk(2, 1, 2, 1),
+            // `ca` has two resource classes whose next-update times differ by
+            // one hour (the second parent is added an hour later)
+            name: "two-classes-staggered-next24-margin8".into(),
+            build: Box::new(|| {
+                let w = c01::build_w3(cfg(24, 8, 52, 4))?;
+                clock::advance(3600);
+                (|| -> crate::world::KResult<()> {
+                    w.add_ca("parent2")?;
+                    w.add_child_link("ta", "parent2", crate::world::res("AS65000-AS65010", "10.0.0.0/8", ""))?;
+                    w.sync_parent("parent2", "ta")?;
+                    w.sync_parent("parent2", "ta")?;
+                    w.sync_ta()?;
+                    w.sync_parent("parent2", "ta")?;
+                    w.add_child_link("parent2", "ca", crate::world::res("AS65000", "10.0.0.0/16", ""))?;
+                    Ok(())
+                })()
+                .map_err(|e| e.to_string())?;
+                w.settle()?;
+                Ok(w)
+            }),
+            model: mk(24, 8, 52, 4),
         },
     ];
     if tier.thorough {
+        configs.push(Config {
+            name: "next2-margin1-roa2w1".into(),
+            build: Box::new(|| c01::build_w3(cfg(2, 1, 2, 1))),
+            model: mk(2, 1, 2, 1),
+        });
         configs.push(Config {
             name: "next3-margin2-roa3w2".into(),
             build: Box::new(|| c01::build_w3(cfg(3, 2, 3, 2))),
